@@ -775,12 +775,15 @@ func (obj *DenseReal32MatrixJointIterator) Index() (int, int) {
   return obj.i, obj.j
 }
 func (obj *DenseReal32MatrixJointIterator) Ok() bool {
-  return !(obj.s1 == nil || obj.s1.GetFloat32() == float32(0)) ||
-         !(obj.s2 == nil || obj.s2.GetFloat32() == float32(0))
+  return obj.i != -1
 }
 func (obj *DenseReal32MatrixJointIterator) Next() {
   ok1 := obj.it1.Ok()
   ok2 := obj.it2.Ok()
+  if !ok1 && !ok2 {
+    // both iterators are exhausted
+    obj.i, obj.j = -1, -1
+  }
   obj.s1 = nil
   obj.s2 = nil
   if ok1 {
